@@ -119,7 +119,7 @@ pub struct Timer {
 impl Timer {
 	pub fn stop(grace: Duration, done: Flag) -> Self {
 		Self {
-			until: Instant::now() + grace,
+			until: Self::deadline(grace),
 			done,
 			is_restart: false,
 		}
@@ -127,10 +127,18 @@ impl Timer {
 
 	pub fn restart(grace: Duration, done: Flag) -> Self {
 		Self {
-			until: Instant::now() + grace,
+			until: Self::deadline(grace),
 			done,
 			is_restart: true,
 		}
+	}
+
+	/// The instant `grace` from now. A grace period too long to be represented as an instant
+	/// (`Duration::MAX`, say) means "never": about thirty years, as tokio does for its own timers.
+	fn deadline(grace: Duration) -> Instant {
+		let now = Instant::now();
+		now.checked_add(grace)
+			.unwrap_or_else(|| now + Duration::from_secs(86400 * 365 * 30))
 	}
 
 	fn to_sleep(&self) -> Sleep {
